@@ -15,7 +15,10 @@ import warnings
 from fractions import Fraction
 
 BRANCH_KINDS = ['conv3', 'conv1', 'conv5', 'conv3nb', 'dw3', 'seq', 'dwsep', 'seq1', 'id', 'pool',
-                'ub', 'ubn', 'ubf', 'ubr', 'uba', 'ubm', 'ub2x']
+                'ub', 'ubn', 'ubf', 'ubr', 'uba', 'ubm', 'ub2x', 'ubrand']
+# user blocks containing a torch random function, which fx treats as impure (dead-code elimination keeps
+# it): finding "discarded branch with an impure op survives" of C03; their output is a random variable
+IMPURE_INSIDE = {'ubrand'}
 # user blocks that invoke one of their layers twice (per-invocation metrics: finding (g) of C06)
 LAYER_TWICE_INSIDE = {'ub2x'}
 # user blocks whose forward ends in a functional / method op (the F8 class)
@@ -24,7 +27,8 @@ KIND_CLASS = {'conv3': 'single', 'conv1': 'single', 'conv5': 'single', 'conv3nb'
               'pool': 'single', 'seq': 'sequential', 'dwsep': 'sequential', 'seq1': 'sequential',
               'id': 'identity', 'ub': 'user-module-tail', 'ubn': 'user-module-tail',
               'ubf': 'user-functional-tail', 'ubr': 'user-functional-tail', 'uba': 'user-functional-tail',
-              'ubm': 'user-functional-tail', 'ub2x': 'user-module-tail'}
+              'ubm': 'user-functional-tail', 'ub2x': 'user-module-tail',
+              'ubrand': 'user-module-tail'}
 
 
 def _torch():
@@ -104,6 +108,17 @@ def make_classes():
         def forward(s, x):
             return s.conv(F.relu(s.conv(x)))
 
+    class UBRand(nn.Module):
+        """conv -> random channel gate (torch.bernoulli: an op fx regards as impure) -> conv"""
+        def __init__(s, c):
+            super().__init__()
+            s.c1 = nn.Conv2d(c, c, 3, padding=1)
+            s.c2 = nn.Conv2d(c, c, 1)
+
+        def forward(s, x):
+            h = s.c1(x)
+            return s.c2(h * torch.bernoulli(torch.full_like(h, 0.9)))
+
     def branch(kind, c):
         if kind == 'conv3':
             return nn.Conv2d(c, c, 3, padding=1)
@@ -125,7 +140,7 @@ def make_classes():
             return nn.Sequential(nn.Conv2d(c, c, 3, padding=1))
         if kind == 'id':
             return nn.Identity()
-        return {'ub': UB, 'ubn': UBN, 'ubf': UBF, 'ubr': UBR, 'uba': UBA, 'ubm': UBM, 'ub2x': UB2X}[kind](c)
+        return {'ub': UB, 'ubn': UBN, 'ubf': UBF, 'ubr': UBR, 'uba': UBA, 'ubm': UBM, 'ub2x': UB2X, 'ubrand': UBRand}[kind](c)
 
     return branch
 
@@ -271,6 +286,12 @@ def graph_tokens(gm, combiner_type=None):
         elif n.op in ('call_function', 'call_method'):
             extra = _enc_arg(tuple(n.args), node_args) + _enc_arg(dict(n.kwargs), node_args)
             kind = 'fn' if n.op == 'call_function' else 'meth'
+            if n.op == 'call_function':
+                try:
+                    if n.is_impure():       # what Graph.eliminate_dead_code will not remove
+                        kind = 'fni'
+                except Exception:           # noqa: BLE001 - purity query not available for this target
+                    pass
             toks.append('%s|%s|%s' % (kind, _SAN.sub('_', _fn_name(n.target) + extra),
                                       '+'.join(str(idx[a]) for a in node_args)))
         elif n.op == 'output':
@@ -293,14 +314,15 @@ def module_names(gm):
 
 
 # ------------------------------------------------------------------ generator
-def random_spec(rng, max_blocks=3, max_br=12, allow_pool=True, force=None):
+def random_spec(rng, max_blocks=3, max_br=12, allow_pool=True, force=None, exclude=()):
+    kinds = [k for k in BRANCH_KINDS if k not in exclude]
     nb = rng.randint(1, max_blocks)
     blocks = []
     for i in range(nb):
         r = rng.random()
         k = rng.randint(2, 4) if r < 0.6 else (rng.randint(5, 8) if r < 0.85 else rng.randint(9, max_br))
         k = min(k, max_br)
-        br = [rng.choice(BRANCH_KINDS) for _ in range(k)]
+        br = [rng.choice(kinds) for _ in range(k)]
         use = rng.choice(['once', 'once', 'twice', 'twice-pool' if allow_pool else 'twice'])
         blocks.append({'br': br, 'use': use, 'gumbel': rng.random() < 0.3, 'hard_ctor': rng.random() < 0.3,
                        'post': rng.choice(['relu', 'none', 'conv', 'none'])})
